@@ -1,3 +1,4 @@
 #!/bin/bash
-# Runs the repository's pinned baseline (guard off) and prints pass/fail counts.
-cd /repo && env -u STINEFM_RELSAD_VERIF /venv/bin/python -m pytest -q -p no:cacheprovider --timeout=900 --continue-on-collection-errors -q 2>&1 | grep -E "passed|failed" | tail -1
+# Runs the repository's pinned baseline (guard off); prints the failing tests and the totals.
+# Expected on a healthy tree: exactly the 4 always-failing example tests fail, 240 pass.
+cd /repo && env -u STINEFM_RELSAD_VERIF /venv/bin/python -m pytest -q -p no:cacheprovider --timeout=900 --continue-on-collection-errors -q -rf 2>&1 | grep -E "^FAILED|^ERROR| passed| failed" | grep -v conda
